@@ -826,6 +826,8 @@ def uncollapse_unary_chains(tree, **params):
     Output options: none
     """
     tree = _uncollapse_unary_chains(tree)
+    while tree.parent is not None:
+        tree = tree.parent
     return tree
 
 
